@@ -1385,7 +1385,9 @@ class Engine:
                 if n is None:
                     am = re.match(r'^\[(.*); (\d+)\]$', lv.ty.strip()); n = int(am.group(2)) if am else None
                 if n is not None:
-                    bound = n if isinstance(n, int) else LIST_K
+                    have = [x for x in lv.fields if isinstance(x, int)]
+                    bound = n if isinstance(n, int) else max(LIST_K, (max(have) + 1) if have else 0)
+                    if not isinstance(n, int) and z3.is_int_value(z3.simplify(n)): bound = z3.simplify(n).as_long()
                     elty = lv.fields.get('__elemty', mm.group(1)); step = k if mm.group(2) == 'chunks_exact' else 1
                     groups = {}; gi = 0; start = 0
                     while start + k <= bound:
@@ -1512,6 +1514,23 @@ class Engine:
                 e = lv.fields[i]
                 alts.append(z3.And(i < ln, self.deref_val(e.fields[0]).e == tp.e, self.deref_val(e.fields[1]).e == tb.e))
             return BoolV(z3.Or(alts))
+        if re.match(r'^core::slice::<impl \[&\[u8\]\]>::contains$', c):
+            # `hashes.contains(&discrim)` == `hashes.iter().any(|&h| h == discrim)` (std definition); byte strings are uninterpreted scalars
+            lv = self.deref_val(args[0]); t = self.deref_val(args[1])
+            if isinstance(lv, StructV) and hasattr(t, 'e'):
+                n = lv.fields['__len'].e if '__len' in lv.fields else None
+                idxs = sorted(k for k in lv.fields if isinstance(k, int))
+                if n is None:
+                    alts = [self.deref_val(lv.fields[i]).e == t.e for i in idxs if hasattr(self.deref_val(lv.fields[i]), 'e')]
+                    if len(alts) == len(idxs): return BoolV(z3.Or(alts) if alts else z3.BoolVal(False))
+                else:
+                    alts = []
+                    for i in range(max(LIST_K, (max(idxs) + 1) if idxs else 0)):
+                        if i not in lv.fields: lv.fields[i] = self.ex.fresh(lv.fields.get('__elemty', '&[u8]'), f'{lv.name}[{i}]')
+                        ev_ = self.deref_val(lv.fields[i])
+                        if not hasattr(ev_, 'e'): alts = None; break
+                        alts.append(z3.And(i < n, ev_.e == t.e))
+                    if alts is not None: return BoolV(z3.Or(alts) if alts else z3.BoolVal(False))
         if re.match(r'^<.*WrappedI80F48 as PartialEq>::(eq|ne)$', c):
             a = self.deref_val(args[0]).e; b = self.deref_val(args[1]).e
             return BoolV(a == b if c.endswith('eq') else a != b)
@@ -1619,7 +1638,9 @@ class Engine:
 
     def iter_len(self, it):
         lv = self.deref_val(it.fields['__list'])
-        if '__len' in lv.fields: return lv.fields['__len'].e
+        if '__len' in lv.fields:
+            le_ = z3.simplify(lv.fields['__len'].e)
+            return le_.as_long() if z3.is_int_value(le_) else lv.fields['__len'].e      # a concrete length is a concrete trip count (not capped by LIST_K)
         m = re.match(r'^\[(.*); (.*)\]$', lv.ty.strip())
         if m:
             n = m.group(2).strip()
@@ -2069,6 +2090,18 @@ class Engine:
             dest_ty = None
             dm = re.match(r'^(_\d+)$', m.group(1))
             if dm: dest_ty = fn.locals.get(dm.group(1))
+            im = re.search(r'\[(_\d+)\]', m.group(1))
+            if im and im.group(1) in fr['locals'] and isinstance(fr['locals'][im.group(1)].val, IntV) and not z3.is_int_value(z3.simplify(fr['locals'][im.group(1)].val.e)):
+                # store through a SYMBOLIC index (e.g. `balances[idx] = new`): fork on the feasible concrete indices (the bounds assertion before the store keeps them few)
+                iv_ = fr['locals'][im.group(1)].val; forks = []
+                for k_ in range(64):
+                    if not self.feasible(st.pc + [iv_.e == k_]): continue
+                    ns = st.clone(); ns.pc.append(iv_.e == k_)
+                    ns.frames[-1]['locals'][im.group(1)].val = IntV(z3.IntVal(k_), iv_.ty)
+                    self.assign(ns, m.group(1), self.rvalue(ns, m.group(2), dest_ty)); forks.append(ns)
+                if not forks: raise PathEnd('infeasible')
+                self.stats['forks'] += 1
+                return forks
             val = self.rvalue(st, m.group(2), dest_ty)
             self.assign(st, m.group(1), val); return
         raise Exception('stmt? ' + s)
